@@ -136,6 +136,29 @@ func drawTrigger(rt *rapid.T, conns []Conn) *Trigger {
 	return t
 }
 
+// drawFault draws a write fault on the forwarder's connection towards one
+// end. In half of the cases the script of that connection is rewritten so
+// that the faulted direction is the only one carrying data (see exactFault).
+func drawFault(rt *rapid.T, conns []Conn) *Trigger {
+	f := &Trigger{Conn: rapid.IntRange(0, len(conns)-1).Draw(rt, "fault.conn"), Side: rapid.SampledFrom([]string{"src", "dst"}).Draw(rt, "fault.side")}
+	c := &conns[f.Conn]
+	to, from := &c.Dst, &c.Src
+	if f.Side == "src" {
+		to, from = &c.Src, &c.Dst
+	}
+	if rapid.Bool().Draw(rt, "fault.oneway") {
+		*to = Side{Send: 0, Chunk: 1024, Start: "now", End: "halfclose"}
+		from.Start = "now"
+		if from.planned() < 2 {
+			from.Send, from.End, from.AbortAt = rapid.SampledFrom([]int{100, 65537, 200000, 1 << 20}).Draw(rt, "fault.send"), "halfclose", 0
+		}
+	}
+	if n := from.planned(); n > 0 {
+		f.AfterBytes = rapid.IntRange(0, n).Draw(rt, "fault.after")
+	}
+	return f
+}
+
 // classes describes what a set of connection scripts exercises.
 func classes(conns []Conn, trig *Trigger) (out []string, nontrivial bool) {
 	seen := map[string]bool{}
@@ -188,10 +211,59 @@ func classes(conns []Conn, trig *Trigger) (out []string, nontrivial bool) {
 type FwdCase struct {
 	Conns  []Conn   `json:"conns"`
 	Cancel *Trigger `json:"cancel,omitempty"`
+	// Fault makes the forwarder's own connection towards one end fail in the
+	// middle of a write: the write that would take the total past AfterBytes
+	// delivers the bytes up to that total and returns them with an error.
+	Fault *Trigger `json:"write_fault,omitempty"`
 }
 
 type fwdStats struct {
-	bytes int
+	bytes        int
+	faultFired   bool
+	faultPartial bool
+}
+
+var errInjected = errors.New("injected write failure")
+
+// faultConn is the forwarder's connection towards an end, failing as
+// described at FwdCase.Fault.
+type faultConn struct {
+	*net.UnixConn
+	after   int
+	written int
+	fired   atomic.Bool
+	partial atomic.Bool
+}
+
+func (f *faultConn) Write(p []byte) (int, error) {
+	if f.written+len(p) > f.after {
+		n, _ := f.UnixConn.Write(p[:f.after-f.written])
+		f.written += n
+		if n > 0 {
+			f.partial.Store(true)
+		}
+		f.fired.Store(true)
+		return n, errInjected
+	}
+	n, err := f.UnixConn.Write(p)
+	f.written += n
+	return n, err
+}
+
+// exactFault tells that the write fault of the case is the only thing that
+// can make its ForwardAndClose call return early: no cancellation, and the
+// end towards which the fault is injected sends nothing and reads its stream
+// to the end. The auditor total of that direction is then final when
+// ForwardAndClose returns.
+func exactFault(c *FwdCase) bool {
+	if c.Fault == nil || c.Cancel != nil {
+		return false
+	}
+	end := c.Conns[c.Fault.Conn].Dst
+	if c.Fault.Side == "src" {
+		end = c.Conns[c.Fault.Conn].Src
+	}
+	return end.planned() == 0 && end.End != "abort"
 }
 
 // runFwd executes the case once.
@@ -230,10 +302,21 @@ func runFwd(c *FwdCase) (violation, timing, trouble string, st fwdStats) {
 	var cancelOnce sync.Once
 	deadline := time.Now().Add(currentIOBound())
 	var wg sync.WaitGroup
+	var faulty *faultConn
 	for i, l := range links {
+		var first, second net.Conn = l.srcInner, l.dstInner
+		if c.Fault != nil && c.Fault.Conn == i {
+			if c.Fault.Side == "src" {
+				faulty = &faultConn{UnixConn: l.srcInner, after: c.Fault.AfterBytes}
+				first = faulty
+			} else {
+				faulty = &faultConn{UnixConn: l.dstInner, after: c.Fault.AfterBytes}
+				second = faulty
+			}
+		}
 		go func() {
 			defer close(l.returned)
-			forwarding.ForwardAndClose(ctx, l.srcInner, l.dstInner,
+			forwarding.ForwardAndClose(ctx, first, second,
 				func(n uint64) { l.toSrc.Add(n) }, func(n uint64) { l.toDst.Add(n) })
 		}()
 		progress := func(side string) func(int) {
@@ -271,7 +354,7 @@ func runFwd(c *FwdCase) (violation, timing, trouble string, st fwdStats) {
 	}
 	wg.Wait()
 	for i, l := range links {
-		v, tm := judgeConn(i, &c.Conns[i], l.src, l.dst, c.Cancel != nil)
+		v, tm := judgeConn(i, &c.Conns[i], l.src, l.dst, c.Cancel != nil || (c.Fault != nil && c.Fault.Conn == i))
 		if v != "" {
 			return v, "", "", st
 		}
@@ -302,6 +385,19 @@ func runFwd(c *FwdCase) (violation, timing, trouble string, st fwdStats) {
 	// if it read to the end of the stream. The copying goroutines may outlive
 	// ForwardAndClose for a moment after a cancellation, so equality is
 	// awaited.
+	if faulty != nil {
+		st.faultFired, st.faultPartial = faulty.fired.Load(), faulty.partial.Load()
+	}
+	if exactFault(c) {
+		l := links[c.Fault.Conn]
+		audit, got, name := &l.toDst, l.dst, "second (towards the destination end)"
+		if c.Fault.Side == "src" {
+			audit, got, name = &l.toSrc, l.src, "first (towards the source end)"
+		}
+		if a := int(audit.Load()); got.ReadToEnd && a != len(got.Received) {
+			return fmt.Sprintf("connection %d: ForwardAndClose has returned (its %s connection failed in the middle of a write after delivering %d bytes in all) and that connection's auditor counts %d bytes, but the end received %d", c.Fault.Conn, name, c.Fault.AfterBytes, a, len(got.Received)), "", "", st
+		}
+	}
 	settle := time.Now().Add(settleBound)
 	for i, l := range links {
 		for _, d := range []struct {
@@ -401,15 +497,18 @@ func TestForwardAndClose(t *testing.T) {
 		t.Skip("replaying")
 	}
 	rec := ev.New(t, prop, "forward-and-close",
-		"rapid: 1..4 concurrent forwarding.ForwardAndClose calls between Unix socket pairs (real CloseWrite) sharing one context; each application end sends 0 B..1 MiB in drawn chunk sizes, starts at once or only after the other end's half-close arrived, and ends by half-close / holding the connection until EOF / abrupt close after a drawn prefix; optionally the context is cancelled once a drawn end has received a drawn number of bytes. Oracle: every end receives a prefix of what the other end wrote, the complete payload followed by a clean EOF when neither end aborted (and when the aborting end's peer sent nothing), all ends finish within 30 s (re-executed 3 times before reporting), ForwardAndClose returns and both its connections are closed, each auditor total lies between bytes received and bytes sent and equals bytes received for ends that read to the end. Non-trivial: an end answers only after the forwarded half-close, or cancellation hits after data arrived")
+		"rapid: 1..4 concurrent forwarding.ForwardAndClose calls between Unix socket pairs (real CloseWrite) sharing one context; each application end sends 0 B..1 MiB in drawn chunk sizes, starts at once or only after the other end's half-close arrived, and ends by half-close / holding the connection until EOF / abrupt close after a drawn prefix; optionally the context is cancelled once a drawn end has received a drawn number of bytes, or the forwarder's own connection towards a drawn end fails in the middle of a write (the write crossing a drawn total delivers the bytes up to it and returns them with an error). Oracle: every end receives a prefix of what the other end wrote, the complete payload followed by a clean EOF when neither end aborted (and when the aborting end's peer sent nothing), all ends finish within 30 s (re-executed 3 times before reporting), ForwardAndClose returns and both its connections are closed, each auditor total lies between bytes received and bytes sent and equals bytes received for ends that read to the end (at once, when the write fault is the only thing that can end the call). Non-trivial: an end answers only after the forwarded half-close, cancellation hits after data arrived, or a failing write delivered part of its buffer")
 	violationSeen.Store(false)
 	frozen.key = ""
 	ev.Check(t, rec, 250, 3000, func(rt *rapid.T) {
 		c := &FwdCase{}
-		interrupted := rapid.IntRange(0, 3).Draw(rt, "cancel") == 0
+		kind := rapid.IntRange(0, 7).Draw(rt, "cancel")
+		interrupted := kind <= 1
 		c.Conns = drawConns(rt, interrupted, 4)
 		if interrupted {
 			c.Cancel = drawTrigger(rt, c.Conns)
+		} else if kind <= 3 {
+			c.Fault = drawFault(rt, c.Conns)
 		}
 		if aborted {
 			return
@@ -444,6 +543,20 @@ func TestForwardAndClose(t *testing.T) {
 		cls, nt := classes(c.Conns, c.Cancel)
 		for _, k := range cls {
 			rec.Class(k)
+		}
+		if c.Fault != nil {
+			switch {
+			case st.faultPartial:
+				rec.Class("write-fault/part-of-a-buffer-delivered")
+				nt = true
+			case st.faultFired:
+				rec.Class("write-fault/nothing-of-the-buffer-delivered")
+			default:
+				rec.Class("write-fault/not-reached")
+			}
+			if exactFault(c) {
+				rec.Class("write-fault/auditor-final-at-return")
+			}
 		}
 		rec.ClassN("bytes-delivered", uint64(st.bytes))
 		if nt {
